@@ -133,6 +133,8 @@ def generate(rng, tier):
                 op["own_id"] = ""            # an id that is there but empty (e.g. forwarded as received)
             elif op["own_id"] is not None and rng.random() < 0.15:
                 op["own_id"] = rng.choice([f"trace {k} ", f" id{k}", f"a\tb {k}"])      # blanks are part of the id
+            elif op["own_id"] is not None and rng.random() < 0.15:
+                op["own_id"] = "@future"
             if op["own_id"] is not None and rng.random() < 0.2:
                 # the id is not a plain str: header values may be bytes (the package's own adapters send such)
                 op["own_id_form"] = rng.choice(["bytes", "strsub"])
@@ -256,8 +258,25 @@ class CallerId(str):
     """a caller's own subclass of str used as an id"""
 
 
+_FUTURE_IDS = {}
+
+
 def caller_id(op):
     """the object the caller puts under X-Request-ID"""
+    if op.get("own_id") == "@future":
+        # an id in the package's own format, made from one this connection family sent earlier, with a number
+        # the generator has not reached yet (a replayed / pre-made id); resolved once, when the request is made
+        if op["k"] not in _FUTURE_IDS:
+            tr = hw._TRANSPORT
+            seen = [v for r in (tr.requests if tr is not None else []) for k, v in r["headers"]
+                    if k.lower() == "x-request-id" and isinstance(v, str) and v.count("-") == 4 and v[-12:].isdigit()]
+            if seen:
+                last = seen[-1]
+                n = int(last[-12:]) + 7 + op["k"]
+                _FUTURE_IDS[op["k"]] = f"{last[:4]}{n % 10000:04}-0000-0000-0000-{n:012}"
+            else:
+                _FUTURE_IDS[op["k"]] = f"caller-{op['k']}"
+        return _FUTURE_IDS[op["k"]]
     form = op.get("own_id_form")
     if form == "bytes":
         return op["own_id"].encode("ascii")
@@ -300,6 +319,7 @@ def execute(trace, rng):
     shim, tr = hw.install_seams(trace.get("seed", 0) ^ 0x5EED, log)
     hw.set_debug_logging(bool(trace.get("debug_log")))
     _SHARED_HEADERS.clear()
+    _FUTURE_IDS.clear()
     objs = build_world(spec)
     sim = ThreadSim(policy_spec=trace.get("policy"), rng=rng,
                     schedule=trace.get("schedule") if rng is None else None, log=log)
